@@ -216,6 +216,17 @@ func (h *Hist) OpReport() {
 	var b []byte
 	if len(h.Sent) > 0 && c.Chance("replay", 1, 6) {
 		b = h.Sent[c.Int("which", len(h.Sent))]
+		if r, ok := DecodeReport(b); ok && c.Chance("resigned", 1, 3) {
+			// The same content under a second valid signature: bytewise
+			// another report, an equivocation by the rule of C02.
+			for _, dv := range h.Devs {
+				if dv.ID == r.ID {
+					r.Sig = SignWithNonce(dv.Key, ReportSigningBytes(r.ID, r.Slot, r.Power), uint64(1+c.Int("nonce", 3)))
+					b = r.Encode()
+					h.W.Probe("hist.resigned-report")
+				}
+			}
+		}
 	} else {
 		b = SignedReport(d.Key, d.ID, slot, v).Encode()
 		h.Sent = append(h.Sent, b)
